@@ -37,6 +37,7 @@ type Scenario struct {
 	Icepts     int
 	PanicIcept int // index of an interceptor that panics (-1 none)
 	Sync       bool
+	LongPause  bool
 	Msgs       []Msg
 	Faults     map[int]sarama.VerifSimFault // by global produce request number
 	MetaFailAt map[int]bool
@@ -232,6 +233,17 @@ func Gen(seed uint64, focus string) *Scenario {
 		}
 		sc.Faults[at] = f
 	}
+	if r.Chance(1, 8) {
+		// a partition is rejected twice in a row and then has no leader for a while (multi-level retry with failing
+		// leader look-ups), after which traffic goes on
+		at := r.Range(1, 4)
+		sc.Faults[at] = sarama.VerifSimFault{Kind: "err", Code: sarama.ErrNotLeaderForPartition, OnlyPartition: -1}
+		sc.Faults[at+1] = sarama.VerifSimFault{Kind: "err", Code: sarama.ErrNotLeaderForPartition, OnlyPartition: -1, LoseLeaderMs: r.Pick(10, 30, 60)}
+		if sc.RetryMax < 2 && r.Chance(3, 4) {
+			sc.RetryMax = r.Range(2, 4)
+		}
+		sc.LongPause = true
+	}
 	sc.MetaFailAt = map[int]bool{}
 	if r.Chance(1, 5) {
 		sc.MetaFailAt[r.Range(2, 5)] = true
@@ -247,6 +259,9 @@ func Gen(seed uint64, focus string) *Scenario {
 		}
 		sc.Bursts = append(sc.Bursts, b)
 		sc.PauseMs = append(sc.PauseMs, r.Pick(0, 0, 1, 2, 5, 12))
+		if sc.LongPause && r.Chance(1, 3) {
+			sc.PauseMs[len(sc.PauseMs)-1] = r.Pick(40, 80)
+		}
 		left -= b
 	}
 	if focus == "C12" || r.Chance(1, 8) {
@@ -288,7 +303,7 @@ func (sc *Scenario) String() string {
 	var fs []string
 	for _, k := range fk {
 		f := sc.Faults[k]
-		fs = append(fs, fmt.Sprintf("%d:%s/%d/p%d/mv%v", k, f.Kind, int(f.Code), f.OnlyPartition, f.MoveLeader))
+		fs = append(fs, fmt.Sprintf("%d:%s/%d/p%d/mv%v/ll%d", k, f.Kind, int(f.Code), f.OnlyPartition, f.MoveLeader, f.LoseLeaderMs))
 	}
 	return fmt.Sprintf("seed=%d focus=%s brokers=%d parts=%d retry=%d flush=%d/%d/%dms max=%d maxbytes=%d idem=%v acks=%d ver=%s buf=%d codec=%d icepts=%d/%d msgs=%d closeAfter=%d faults=[%s] sync=%v",
 		sc.Seed, sc.Focus, sc.Brokers, sc.Partitions, sc.RetryMax, sc.FlushMsgs, sc.FlushBytes, sc.FlushFreq, sc.MaxMsgs, sc.MaxMsgByte,
